@@ -180,6 +180,27 @@ class Body:
             self._defs = d
         return self._defs.get(local, [])
 
+    def mut_borrow_calls(self, local):
+        """call terminators that receive a `&mut` borrow of `local` (the callee may write into it)"""
+        if getattr(self, "_mbc", None) is None:
+            refs = {}   # temp local -> borrowed base local
+            for i in range(self.n):
+                if self.blocks[i].get("cu"):
+                    continue
+                for s in self.blocks[i]["s"]:
+                    if s["k"] == "=" and s["rv"]["k"] == "ref" and s["rv"]["m"] and len(s["p"]) == 1:
+                        refs.setdefault(s["p"][0], set()).add(s["rv"]["p"][0])
+            m = {}
+            for i in range(self.n):
+                t = self.blocks[i]["t"]
+                if t["k"] == "call" and not self.blocks[i].get("cu"):
+                    for a in t["args"]:
+                        if a[0] in ("m", "c") and len(a[1]) == 1 and a[1][0] in refs:
+                            for base in refs[a[1][0]]:
+                                m.setdefault(base, []).append(t)
+            self._mbc = m
+        return self._mbc.get(local, [])
+
     def origins(self, op, max_nodes=400, deep=False):
         """flow-insensitive backward origin atoms of an operand ['c'|'m', place] / ['k', const]
         or a bare place list."""
@@ -216,6 +237,10 @@ class Body:
             if not ds and not is_param:
                 a = Atom("unknown", f"_{local}", None, proj)
                 out[a.key()] = a
+            if deep:
+                for t2 in self.mut_borrow_calls(local):
+                    for a2 in t2["args"]:
+                        push_op(a2, ())
             for bb, kind, s in ds:
                 if kind == "=":
                     # a partial write `_l.f = x` only matters if it can overlap the projection we follow
@@ -286,8 +311,8 @@ class Body:
                     t = s
                     a = Atom("call", t["f"], bb, proj, t)
                     out[a.key()] = a
-                    if deep and t["args"] and re.search(r"::(new|new_or_panic|from_[a-z_]+)$", t["f"]):
-                        # constructor-like call: the value is built from all its arguments
+                    if deep and t["args"]:
+                        # deep = transitive data dependencies: the result may be computed from any argument
                         for a2 in t["args"]:
                             push_op(a2, ())
                     elif t["args"] and (PASS_THROUGH.match(t["f"]) or PASS_THROUGH.match(t["fd"])
